@@ -73,7 +73,9 @@ def orient(ctx):
         obj = SymObj(ctx.fn(DI, 'Dislocation'), {}, 'self')
         ev = SymEval(module_aliases(ctx.mod(DI)))
         ev.globals = {'miller': Mil()}
-        env = {'self': obj, 'dislsol': sol, 'ξ_uvw_p': X, 'm_uvw': M, 'n_uvw': Nn, 'ucell_prim': Prim(), 'ucell': 'UCELL', 'setting': 'p', 'hexindices': False, 'tol': sp.Rational(1, 10 ** 8), 'maxindex': 5}
+        # every local of the head is in scope: the line direction in primitive indices (the one the rotated cell is built from) and in conventional indices, the Cartesian axes, ...
+        env = {'self': obj, 'dislsol': sol, 'ξ_uvw_p': X, 'ξ_uvw': symarray('xconv', (3,)), 'm_uvw': M, 'n_uvw': Nn, 'm_cart': symarray('mc', (3,)), 'n_cart': symarray('nc', (3,)),
+               'ucell_prim': Prim(), 'ucell': 'UCELL', 'setting': 'p', 'hexindices': False, 'tol': sp.Rational(1, 10 ** 8), 'maxindex': 5}
         try:
             q = ev.block(tail, [Path(env)])
         except WouldRaise:
@@ -777,4 +779,6 @@ def run(ctx):
     ctx.explanation = ('C13: the orientation table, slip-plane shifts, monopole and periodic-array generators and their boundary regions are evaluated on symbolic / model inputs with recording stubs: '
                        'which vector goes in which cell row (handedness), shifts midway between planes, the supersize -> shift -> wrap -> copy -> displace -> pbc -> wrap sequence and its arguments, '
                        'symmetric multipliers, boundary re-typing, cylinder radius on model cross-sections, the b/2 box tilt, refusals, old_id, the linear field. Not decided: the disregistry integral, overlaps.')
-    ctx.run_rules([orient, shifts, monopole, boundary, array, array_model, deleted_count, own_planes, disregistry])
+    # "the disregistry across the slip plane accumulates to one Burgers vector": for isotropic constants the jump comes from the branch of θ in the fallback solver
+    from .c12 import theta_branch
+    ctx.run_rules([orient, shifts, monopole, boundary, array, array_model, deleted_count, own_planes, disregistry, theta_branch])
